@@ -23,6 +23,7 @@ type Engine struct {
 	pkgs    map[string]*ssa.Package // by path
 	tpkgs   map[string]*packages.Package
 	specs   *Specs
+	repeatInfo *repeatScan
 	fnIDs   map[*ssa.Function]int
 	fnByID  []*ssa.Function
 	tags    map[string]int
